@@ -241,13 +241,12 @@ func (e *Engine) RunJob(job *Job, workers int) *JobResult {
 	work := [][]int{{}}
 	active := 0
 	jr := &JobResult{Job: job}
+	var spent time.Duration // cumulative path-execution time of this job (all workers)
 	var wg sync.WaitGroup
 	for w := 0; w < workers; w++ {
 		wg.Add(1)
 		go func() {
 			defer wg.Done()
-			solver := NewSolver()
-			defer solver.Close()
 			for {
 				mu.Lock()
 				for len(work) == 0 && active > 0 {
@@ -258,7 +257,7 @@ func (e *Engine) RunJob(job *Job, workers int) *JobResult {
 					cond.Broadcast()
 					return
 				}
-				if len(jr.Paths) >= maxPaths || (jobTimeLimit > 0 && time.Since(t0) > jobTimeLimit) {
+				if len(jr.Paths) >= maxPaths || (jobTimeLimit > 0 && spent > jobTimeLimit) {
 					jr.Truncated = true
 					work = nil
 					mu.Unlock()
@@ -269,8 +268,13 @@ func (e *Engine) RunJob(job *Job, workers int) *JobResult {
 				work = work[:len(work)-1]
 				active++
 				mu.Unlock()
+				solver := acquireSolver()
+				tp := time.Now()
 				res, pend := e.runPath(job, t, solver)
+				dt := time.Since(tp)
+				releaseSolver(solver)
 				mu.Lock()
+				spent += dt
 				active--
 				jr.Paths = append(jr.Paths, res)
 				work = append(work, pend...)
@@ -285,9 +289,30 @@ func (e *Engine) RunJob(job *Job, workers int) *JobResult {
 	return jr
 }
 
-// jobTimeLimit: wall-clock budget per job; a job that exceeds it is reported truncated
+// Global pool of solver instances: one token per core. Jobs run concurrently and share
+// the pool at path granularity, so a heavy job absorbs the capacity light jobs leave idle.
+var (
+	solverPool     chan *Solver
+	solverPoolOnce sync.Once
+)
+
+const poolSize = 16
+
+func acquireSolver() *Solver {
+	solverPoolOnce.Do(func() {
+		solverPool = make(chan *Solver, poolSize)
+		for i := 0; i < poolSize; i++ {
+			solverPool <- NewSolver()
+		}
+	})
+	return <-solverPool
+}
+
+func releaseSolver(s *Solver) { solverPool <- s }
+
+// jobTimeLimit: budget of cumulative path-execution time per job (summed over workers); a job that exceeds it is reported truncated
 // (its unexplored paths count as inconclusive, never as success).
-var jobTimeLimit = 150 * time.Second
+var jobTimeLimit = 600 * time.Second
 
 func trailLess(a, b []int) bool {
 	for i := 0; i < len(a) && i < len(b); i++ {
